@@ -373,7 +373,7 @@ def judge_C07(chk):
 def gen_C08(chk):
     rng = chk.rng
     ws = worlds(chk, quick_names=["N02", "N05", "N06", "N09", "N16", "N21"], n_random=cnt(chk, 2, 8))
-    pool_names = ["x", "xx", "xxx", "y", "zz", "var0", "E", "V", "3"]
+    pool_names = ["x", "xx", "xxx", "y", "zz", "var0", "E", "V", "3", "\u00e9", "\u03bb2", "\u00e9tat_1"]
     for nm, net in ws:
         props = net_props(net)
         for j in range(cnt(chk, 8, 30)):
@@ -428,7 +428,7 @@ def judge_C08(chk):
 # ------------------------------------------------------------------ C09
 def gen_C09(chk):
     rng = chk.rng
-    props = ["a", "b", "Vv", "3x"]
+    props = ["a", "b", "Vv", "3x", "v3", "kV"]
     seen = set()
     trees = []
     for j in range(cnt(chk, 400, 1500)):
@@ -614,6 +614,13 @@ def gen_C14(chk):
                 need |= wl | dl
             ctx = [(l, ctx_spec(rng)) for l in sorted(need) if rng.random() < 0.9]
             chk.add_eval(net, k, "e" + rng.choice(["s", ""]), fs, ctx=ctx, tag="ext-batch", netname=nm)
+        # nested domains on disjoint sets of colours: valid input, an answer is due
+        for j in range(cnt(chk, 3, 8)):
+            sd = rng.randint(1, 10 ** 6)
+            ctx = [("d", "k%d.1.2" % sd), ("e2", "K%d.1.2" % sd)]
+            body = ("H", "Jump", "x", None, ("U", rng.choice(["EF", "EX"]), gen.T("V", "y")))
+            f = ("H", rng.choice(gen.QUANTS), "x", "d", ("H", rng.choice(gen.QUANTS), "y", "e2", body))
+            chk.add_eval(net, 2, "es", [f], ctx=ctx, tag="disjoint-colours", netname=nm)
         # deep nesting (bounded), long unary chains, many parentheses
         for depth in ([8, 32, 64] if not thorough(chk) else [8, 32, 64, 200]):
             chk.add_eval(net, 0, "s", ["(" * depth + props[0] + ")" * depth], tag="nesting", netname=nm)
